@@ -165,9 +165,11 @@ Dump(v) == CASE v.t = "null" -> <<"n", "u", "l", "l">>
 Alphabet == {"[", "]", "{", "}", "\"", ":", ",", "1", "-", ".", "e", "\\", " ", "n"}
 Texts == UNION {[1..n -> Alphabet] : n \in 0..MaxTextLen}
 
-StrAtoms == {<<>>, <<"a">>, <<"\"">>, <<"\\">>, <<"NL">>, <<"\\", "u">>, <<"a", "\\">>}
+\* "NUL" is the byte 0: json_escape and the parser must treat it like any other byte (C strings end there, std::string does not)
+StrAtoms == {<<>>, <<"a">>, <<"\"">>, <<"\\">>, <<"NL">>, <<"\\", "u">>, <<"a", "\\">>,
+             <<"NUL">>, <<"a", "NUL", "\"">>, <<"NUL", "\\">>, <<"NUL", "NL", "a">>, <<"a", "NUL", "a", "\"", "a">>}
 Leaves == {Null, BoolV(TRUE), BoolV(FALSE), IntV(FALSE, <<"0">>), IntV(TRUE, <<"1">>), IntV(FALSE, <<"2", "9">>)} \cup {StrV(s) : s \in StrAtoms}
-Keys == {<<>>, <<"a">>, <<"\"">>}
+Keys == {<<>>, <<"a">>, <<"\"">>, <<"a", "NUL", "\"">>}
 Trees1 == Leaves \cup {ArrV(<<>>), ObjV(<<>>, <<>>)}
              \cup {ArrV(<<a>>) : a \in Leaves} \cup {ArrV(<<a, b>>) : a \in Leaves, b \in {Null, IntV(TRUE, <<"1">>), StrV(<<"\"">>)}}
              \cup {ObjV(<<k>>, <<a>>) : k \in Keys, a \in Leaves}
